@@ -364,6 +364,63 @@ def rule_fixpoints(ctx, rep, config="c-lib"):
                                   where=i.where(), witness=[early[0].where(), ld.where()])
                 else:
                     rep.ok("R10", key, sample={"xor": i.where(), "field": fld})
+    # the same accumulation rule in the helper whose result feeds the flags of FIRST / FOLLOW: term_set_or reports a change of any word
+    f = p.fn("term_set_or")
+    rep.cover(p, ["term_set_or"])
+    nacc = 0
+    for L in f.loops():
+        for bn in L["body"]:
+            for i in f.bmap[bn].insts:
+                v = i.d.get("var")
+                if not v or "chang" not in v or i.op in ("phi", "alloca"):
+                    continue
+                nacc += 1
+                ok = i.op == "or" and any((f.inst(strip_int_casts(f, o)) is not None and f.inst(strip_int_casts(f, o)).d.get("var") == v) for o in i.ops)
+                if ok:
+                    rep.ok("R10", "term_set_or/%s-accumulates#%d" % (v, nacc))
+                else:
+                    rep.violation("R10", "term_set_or/%s-accumulates#%d" % (v, nacc), "term_set_or overwrites its result `%s' for every word of the set: it reports only "
+                                  "whether the last word changed -- with more terminals than bits in a word the FIRST / FOLLOW fixpoint stops while sets still grow" % v,
+                                  where=i.where(), witness=[i.where()])
+    phis = [i for L in f.loops() for i in f.bmap[L["header"]].insts if i.op == "phi" and "chang" in (i.d.get("var") or "")]
+    if not phis and not nacc:
+        raise AnalysisBroken("R10: the result flag of term_set_or was not found")
+    if not nacc:
+        rep.ok("R10", "term_set_or/result-accumulates", sample={"flag": phis[0].d.get("var"), "form": "set to a constant under the word's test"})
+    # a store into the situations being iterated by the context fixpoint (new_sits[i]) is reported through the flag
+    f = p.fn("expand_new_start_set")
+    nst = 0
+    dom = f.dominators() if hasattr(f, "dominators") else None
+    for L in f.loops():
+        flagphis = [i for bn in L["body"] for i in f.bmap[bn].insts if i.op == "phi" and "chang" in (i.d.get("var") or "")]
+        if not flagphis:
+            continue
+        inner = [L2 for L2 in f.loops() if L2 is not L and set(L2["body"]) < set(L["body"]) and any(
+            i.op == "phi" and "chang" in (i.d.get("var") or "") for bn in L2["body"] for i in f.bmap[bn].insts)]
+        if inner:
+            continue       # the innermost loop that carries the flag
+        for bn in L["body"]:
+            for s_ in f.bmap[bn].insts:
+                if s_.op != "store":
+                    continue
+                pa = resolve_addr(f, s_.ops[1])
+                bp = loaded_from(f, pa.root[1]) if pa.root[0] == "val" else None
+                if bp is None or bp.root != ("g", "new_sits") or bp.steps or not pa.steps:
+                    continue
+                nst += 1
+                setters = [pb for ph in flagphis for (v, pb) in ph.d["incoming"] if const_int(v) not in (None, 0)]
+                good = any(pb == bn or _dominates(f, bn, pb) for pb in setters)
+                # `flag |= (new != old)' form
+                good = good or any(i.op == "or" and "chang" in (i.d.get("var") or "") and (b2 == bn or _dominates(f, bn, b2))
+                                   for b2 in L["body"] for i in f.bmap[b2].insts)
+                key = "expand_new_start_set/state-store-flagged#%d" % nst
+                if good:
+                    rep.ok("R10", key, sample={"store": s_.where()})
+                else:
+                    rep.violation("R10", key, "the context fixpoint replaces a situation of the set being built (new_sits[i]) without setting its change flag on that "
+                                  "path: the iteration stops although a context still changed, situations keep a context that is too small and valid items are pruned "
+                                  "at lookahead 2", where=s_.where(), witness=[s_.where()])
+    rep.floor("R10", "stores into the iterated situations of the context fixpoint", nst, 1)
     # element loops: an early exit decided by something that does not change inside the loop makes the loop degenerate
     # (it looks at one element, or at an element of the enclosing loop, instead of at each of its own)
     for fn in FUNCS:
@@ -572,3 +629,13 @@ def _flag_in_exit_chain(f, L, flag):
 def _same_obj(f, a1, a2):
     p1, p2 = resolve_addr(f, a1), resolve_addr(f, a2)
     return p1.root == p2.root or (p1.root[0] == "val" and p2.root[0] == "val" and strip_casts(f, p1.root[1]) == strip_casts(f, p2.root[1]))
+
+
+def _dominates(f, a, b):
+    idom = f.idom()
+    cur = b
+    while cur is not None:
+        if cur == a:
+            return True
+        cur = idom.get(cur)
+    return False
